@@ -160,7 +160,7 @@ def run_matrix_case(case, ctx):
     for attempt in range(300):
         plan_, risk = c16.gen_pop_case(rnd, 'conn_delay', opened16)
         dl = [c for c in plan_['conns'] if c.get('delay')]
-        if dl and not any(c.get('spread') or c['kind'] == 'coupling' for c in plan_['conns']):
+        if dl and not plan_.get('dde_approx') and not any(c.get('spread') or c['kind'] == 'coupling' for c in plan_['conns']):
             break
     else:
         raise RuntimeError('generator could not satisfy the constraints')
